@@ -100,6 +100,7 @@ def run(ck, fb):
     r01y(ck, fb)
     r01z(ck, fb)
     r01aa(ck, fb)
+    ck.borrow('rules.c09', {'R09l': 'R01ab'}, 'a snapshot record carries the whole history of a key: the full-value path must store all 100 entries a node served before it stopped, not one fewer')
     ck.borrow('rules.c07', {'R07f': 'R01x'}, 'a snapshot must be labelled with the index of the last entry it contains: last_applied_log advances when the apply is accepted, otherwise the replay after a restart applies an entry twice')
     ck.borrow('rules.c19', {'R19h': 'R01q'}, 'a request served while the restore is still running is applied on top of a state that is about to be overwritten by it')
     ck.borrow('rules.c20', {'R20g': 'R01p'}, 'a snapshot whose header record is longer than one read chunk must still be readable at start-up, otherwise everything it covers is missing after the restart')
